@@ -250,6 +250,18 @@ class GridModel:
         self.rows = []
         self.ncols = 0
 
+    def rstrip(self):
+        """Table.rstrip(): empty rows below and empty cells at the right disappear,
+        the columns are trimmed to the widest remaining row."""
+        while self.rows and all(c is None for c in self.rows[-1]):
+            self.rows.pop()
+        for r in self.rows:
+            while r and r[-1] is None:
+                r.pop()
+        width = max([len(r) for r in self.rows], default=0)
+        if self.ncols > width:
+            self.ncols = width
+
     def set_row_run_length(self, start, old_len, k):
         cells = self.rows[start]
         self.rows[start : start + old_len] = [list(cells) for _ in range(k)]
